@@ -715,7 +715,12 @@ def _related(rng, vals):
         for j in range(1, len(v) - 1):
             if rng.random() < 0.7:
                 lo, hi = sorted((v[j - 1], v[j + 1]))
+                old = v[j]
                 v[j] = v[j] + (hi - lo) * rng.uniform(-0.2, 0.2) if hi > lo else v[j] * (1 + rng.uniform(-1e-3, 1e-3))
+                if (old > 0) != (v[j] > 0) or (old < 0) != (v[j] < 0):
+                    # a related input keeps the SIGN of what it perturbs (weights, cross-sections, widths stay what they were:
+                    # positive, negative or exactly zero) -- sign conditions are preconditions of many units
+                    v[j] = old * (1 + rng.uniform(-0.2, 0.2))
     if not keys or rng.random() < 0.3:
         sc = [k for k, v in out.items() if isinstance(v, float)]
         for k in sc[:1]:
